@@ -58,9 +58,9 @@ import (
 // interfaces (b6.Features implementations).
 func init() {
 	register(&Rule{
-		Name:  "ITER-SIBLINGS",
-		IR:    "ast",
-		Props: []string{"C03", "C06", "C08"}, // C08: the posting-list iterator's pair only (Narrow). C06: the same sibling agreement is a necessary condition of the iterator algebra (Advance must land inside the range Next would enumerate)
+		Name:    "ITER-SIBLINGS",
+		IR:      "ast",
+		Props:   []string{"C03", "C06", "C08"}, // C08: the posting-list iterator's pair only (Narrow). C06: the same sibling agreement is a necessary condition of the iterator algebra (Advance must land inside the range Next would enumerate)
 		FloorBy: map[string]int{"C08": 1},
 		Narrow: func(o *Obligation) {
 			if strings.Contains(o.Key, "ingest/compact.(*Iterator).") {
